@@ -17,7 +17,8 @@ RULE = ("Hypothesis-drawn block trees with transactions (forks of any shape, spe
         "unspent map == replay-from-genesis reference; public_key_balances_by_hash[b] == reference balances (sum and exact "
         "reference set per key, no duplicates, empty entries ignored); Wallet.get_balance(subset of keys) == reference sum "
         "at the head; all orders agree; every intermediate CoinState (and balances read from it) has the same digest at the "
-        "end as when it was returned. non-trivial = tree with >= 1 fork whose branches contain different spends and >= 2 "
+        "end as when it was returned; before the comparison some balance queries are interrupted by an exception half-way or "
+        "overlapped by a query from a second thread (nothing may be left behind). non-trivial = tree with >= 1 fork whose branches contain different spends and >= 2 "
         "distinct orders; distinct = digest of (ops, orders).")
 ASSUMPTIONS = ["test configuration (fast scrypt stand-in, checkpoints off)", "replay-from-genesis reference in vf/refmodel.py"]
 MIN_NONTRIVIAL = {"quick": 60, "thorough": 600}
@@ -97,7 +98,11 @@ class Checker:
             if got != ref:
                 self.fail("utxo", "utxo!=replay", "order %s: unspent set at %s differs from replay-from-genesis (%d vs %d entries)" % (order_name, bid.hex()[:12], len(got), len(ref)))
             rb = led.balances(ref)
-            m = cs.public_key_balances_by_hash[bid]
+            try:
+                m = cs.public_key_balances_by_hash[bid]
+            except Exception as e:
+                self.fail("balances", "balance-query-raised", "order %s: querying the balances at %s raised %r" % (order_name, bid.hex()[:12], e))
+                continue
             gb = {}
             for pk, bal in m.items():
                 refs = [(r.hash, r.index) for r in bal.output_references]
@@ -123,7 +128,48 @@ class Checker:
         if got != want:
             self.fail("wallet_balance", "wallet-balance!=reference", "Wallet.get_balance=%d, reference %d (%d keys)" % (got, want, len(ks)))
 
-    def deliver(self, order, validated, name, rnd=None, snapshots=False):
+    def interrupted_and_concurrent_queries(self, cs, name):
+        """a balance query that is interrupted by an exception half-way, or overlapped by a second query from another
+        thread, must not leave anything behind: the queries made afterwards (check_state) are compared with the reference"""
+        import threading
+        import skepticoin.balances as BAL
+        bids = sorted(cs.block_by_hash.keys(), key=lambda i: -cs.block_by_hash[i].height)
+        if len(bids) < 3:
+            return
+        orig = BAL.uto_apply_block
+
+        class Interrupt(Exception):
+            pass
+
+        for mode in ("interrupt", "overlap"):
+            for target, when in ((bids[0], 2), (bids[1], 1)):
+                calls = {"n": 0}
+
+                def hooked(utxo, block):
+                    calls["n"] += 1
+                    if calls["n"] == when:
+                        if mode == "interrupt":
+                            raise Interrupt()
+                        t = threading.Thread(target=lambda: cs.public_key_balances_by_hash[bids[-1 if target != bids[-1] else 0]])
+                        t.daemon = True
+                        t.start()
+                        t.join(0.2)
+                    return orig(utxo, block)
+
+                BAL.uto_apply_block = hooked
+                try:
+                    try:
+                        cs.public_key_balances_by_hash[target]
+                    except Interrupt:
+                        pass
+                    except Exception as e:
+                        self.fail("balances", "balance-query-raised-after-" + mode, "order %s: a balance query raised %r after an earlier query was %s" % (
+                            name, e, "interrupted by an exception" if mode == "interrupt" else "overlapped by another thread's query"))
+                finally:
+                    BAL.uto_apply_block = orig
+                self.stats["interrupted_or_overlapped_queries"] = self.stats.get("interrupted_or_overlapped_queries", 0) + 1
+
+    def deliver(self, order, validated, name, rnd=None, snapshots=False, probe=False):
         from skepticoin.coinstate import CoinState
         b = self.b
         cs = CoinState.zero()
@@ -139,6 +185,8 @@ class Checker:
             if snapshots:
                 bids = list(cs.block_by_hash.keys())
                 snaps.append((cs, b.coinstate_digest(cs), balances_digest(cs, bids), bids))
+        if probe:
+            self.interrupted_and_concurrent_queries(cs, name)
         self.check_state(cs, name)
         if rnd is not None:
             self.wallet_check(cs, rnd)
@@ -182,7 +230,7 @@ def execute(case, rnd_orders=None):
     for k, od in enumerate(orders):
         od = [l for l in od if l in c.world.blocks]
         validated = (k % 3 == 1) or len(orders) <= 4 and k == 0
-        cs = c.deliver(od, validated, "#%d%s" % (k, "v" if validated else "n"), rnd=wr, snapshots=(k < 2))
+        cs = c.deliver(od, validated, "#%d%s" % (k, "v" if validated else "n"), rnd=wr, snapshots=(k < 2), probe=(k in (0, 2)))
         if cs is not None:
             digs.add(c.final_digest(cs))
     if len(digs) > 1:
